@@ -21,7 +21,7 @@ Ev == Trace[l]
 ParamH(o) == LET x == o.ax.H IN
     [ax |-> "H", kind |-> IF o.cls \in {"ew1", "ew2"} THEN "ew" ELSE "win", I |-> x.I, ro |-> x.ro, rl |-> x.rl, sp |-> o.sp,
      wo |-> x.wo, O |-> x.O, k |-> x.k, d |-> x.d, s |-> x.s, pt |-> o.pt, epb |-> x.ep[1], epa |-> x.ep[2], up |-> o.up]
-Plain(e) == \A i \in 2..e.n : ~e.ops[i].sp /\ e.ops[i].up = 0 /\ e.ops[i].ax.H.wo = 0 /\ e.ops[i].pt \in {"SAME", "VALID"}
+Plain(e) == e.model /\ \A i \in 2..e.n : ~e.ops[i].sp /\ e.ops[i].up = 0 /\ e.ops[i].ax.H.wo = 0 /\ e.ops[i].pt \in {"SAME", "VALID"}
 GeoOf(e) == [n |-> e.n, O |-> [i \in 1..e.n |-> e.ops[i].ax.H.O], p |-> [i \in 1..e.n |-> ParamH(e.ops[i])],
              h |-> [i \in 1..e.n |-> e.ops[i].h], hin |-> [i \in 1..e.n |-> e.ops[i].hin],
              bufh |-> [i \in 1..e.n |-> IF i = 1 THEN 0 ELSE e.ops[i].store], plain |-> Plain(e),
